@@ -115,6 +115,7 @@ def generate(rng, tier: str, index: int) -> dict:
     plan = {'micro_seed': rng.randint(1, 1 << 48), 'knobs': knobs(rng), 'conf': conf, 'opens': opens}
     # a second neighbor in the same process with the other ADD-PATH setting, its sessions interleaved with the first one's: what one
     # session negotiated is no business of another (a side stream: the plans generated so far keep their draws)
+    plan['api_packets'] = rng.fork('api-packets').chance(0.4)
     f = rng.fork('second')
     if f.chance(0.25) and ap_ok and not conf['local_auto']:
         if conf['addpath'] != 'disable':
@@ -251,6 +252,9 @@ def execute(plan: dict) -> dict:
         'families': conf['families'], 'caps': caps, 'addpath_families': conf['addpath_families'] or None, 'adj-rib-out': False,
         'api': {'processes': ['h1'], 'options': ['negotiated', 'neighbor-changes']},
     }  # fmt: skip
+    if plan.get('api_packets'):
+        # the helper is also shown every message as a packet, the OPENs included: rendered before the negotiation is complete
+        nb['api'].update({'receive': ['packets', 'open', 'keepalive'], 'send': ['packets', 'open']})
     if conf['nexthop']:
         nb['nexthop'] = ['ipv4 unicast ipv6', 'ipv4 mpls-vpn ipv6'] if (1, 128) in [tuple(f) for f in conf['families']] else ['ipv4 unicast ipv6']
     if conf['hostname']:
